@@ -53,7 +53,11 @@ def run(rep, drv):
 		case = {'pmf': frs(q), 'ys': xs}
 		rep.case('discrete(pmf dict)', case)
 		mo = drv.call('nvdiscrete', pmf=frs(q), h='1', b='1', ys=xs)
-		pmf = {d: float(v) for d, v in enumerate(q)}
+		# a pmf dict is a mapping: insertion order is arbitrary, zero-probability points may be absent
+		items = [(d, float(v)) for d, v in enumerate(q) if v != 0 or rng.random() < .5]
+		rng.shuffle(items)
+		pmf = dict(items)
+		rep.count('pmf-dict:' + ('ascending' if [k for k, _ in items] == sorted(k for k, _ in items) else 'unordered'))
 		for i, x in enumerate(xs):
 			try:
 				with warnings.catch_warnings():
